@@ -24,14 +24,17 @@ def position_opener(n, blinds, first_round, posted=None):
     """Button games.  `blinds[i]` is the nominal blind/straddle of PLAYER i (already mapped for heads-up);
     negative = a post by a late-seated player, which does not count.  `posted[i]` is what player i actually
     put in as a blind or straddle (a player whose chips were used up by the ante posts nothing); the round is
-    opened by the seat after the last - i.e. largest, latest seat on ties - blind or straddle posted."""
+    opened by the seat after the last - i.e. largest, on ties the one posted last - blind or straddle.  Blinds are
+    posted clockwise from the small blind: seats 0, 1, 2, ... with three or more players; heads-up the button
+    (player 1) posts the small blind first and player 0 the big blind last, so the small blind/button acts first."""
     if not first_round:
         return 0                       # first seat after the button
+    order = list(range(n)) if n != 2 else [1, 0]
     best = None
-    for i in range(n):
+    for k, i in enumerate(order):
         b = blinds[i]
         amount = b if posted is None else posted[i]
-        key = (amount if b > 0 else 0, i)
+        key = (amount if b > 0 else 0, k)
         if best is None or key >= best[0]:
             best = (key, i)
     if best[0][0] <= 0:
